@@ -65,6 +65,7 @@ func Messages() []*descriptorpb.DescriptorProto {
 		dyn.Msg("Leaf", dyn.F("label_text", 1, dyn.String), dyn.F("count", 2, dyn.Int32), dyn.F("blob_data", 3, dyn.Bytes), dyn.F("color", 4, dyn.Enum, dyn.Of(".un.Color"))),
 		dyn.Msg("Nest", dyn.F("sub_title", 1, dyn.String), dyn.F("leaf", 2, dyn.Message, dyn.Of(".un.Leaf")), dyn.F("big_num", 3, dyn.Int64),
 			dyn.F("word_list", 4, dyn.String, dyn.Rep()), dyn.F("ratio", 5, dyn.Double)),
+		dyn.Msg("UploadReq", dyn.F("name", 1, dyn.String), dyn.F("file", 2, dyn.Message, dyn.Of(".google.api.HttpBody")), dyn.F("note", 3, dyn.String)),
 		all,
 	}
 }
